@@ -78,47 +78,45 @@ example : (addBlock exEnv1 exNode { b1 with hdr := { h1 with primary := 1 } }).2
     (addBlock exEnv1 exNode { b1 with hdr := { h1 with primary := 0 } }).2 = none ∧
     (addBlock exEnv1 exNode { hdr := { h1 with primary := 200, merkleRoot := 0 }, txs := [] }).2 = none := by decide
 
-/-! ### the full statements of C06 (2) and (3), and exactly where they fail -/
+/-! ### the full statements of C06 (2) and (3) -/
 
-/-- C06: a rejected block can leave the node's ledger changed only by a storeBlock failure after the
-execution of the block, which needs StateRootInHeader and the header after this block already recorded
-(headers announced ahead). This is the known finding failed-store-corrupts-trie
-(`reject_changes_ledger_after_failed_store` is the witness that it does happen then). -/
-theorem ledger_touched_only_if_header_ahead (env : Env L) (s s' : Node L) (b : Block) (e : Err)
+/-- C06 (2), FULL statement, every node state and every block: a rejected block changes neither
+configuration, block height, ledger nor mempool; the header chain is unchanged or extended by exactly this
+block's header, which then (unless SkipBlockVerification) is linked to the last recorded header — previous
+hash, next index, later timestamp — and signed for the consensus address that header designates. -/
+theorem reject_changes_nothing (env : Env L) (s s' : Node L) (b : Block) (e : Err)
     (hne : s.headers ≠ []) (hix : Indexed s.headers)
-    (h : addBlock env s b = (s', some e)) (hl : s'.ledger ≠ s.ledger) :
-    e = .store ∧ s.cfg.sr = true ∧ b.hdr.index < s.headerHeight ∧ ∃ l', env.apply s.ledger b = some l' :=
-  ledger_touched_only_with_header_ahead env s s' b e hne hix h hl
-
--- non-vacuity: the witness of the finding meets the conclusion (sr, index 1 < header height 2)
-example : exBadNext.cfg.sr = true ∧ b1.hdr.index < exBadNext.headerHeight := by decide
-
-/-- C06 (2), FULL statement whenever the node has no header recorded beyond this block or does not
-carry state roots in headers (every node that receives blocks without header announcements ahead): a
-rejected block changes neither configuration, height, ledger nor mempool; the header chain is unchanged or
-extended by exactly this block's validly linked and signed header. -/
-theorem reject_changes_nothing_full (env : Env L) (s s' : Node L) (b : Block) (e : Err)
-    (hne : s.headers ≠ []) (hix : Indexed s.headers)
-    (hcond : s.cfg.sr = false ∨ s.headerHeight ≤ b.hdr.index)
     (h : addBlock env s b = (s', some e)) :
     s'.cfg = s.cfg ∧ s'.blockHeight = s.blockHeight ∧ s'.ledger = s.ledger ∧ s'.pool = s.pool ∧
     (s'.headers = s.headers ∨
       (s'.headers = s.headers ++ [b.hdr] ∧ b.hdr.index = s.headerHeight + 1 ∧
-        (s.cfg.skip = false → ∃ last, s.headers.getLast? = some last ∧ LinkOK env last b.hdr))) :=
-  reject_changes_nothing_no_header_ahead env s s' b e hne hix hcond h
+        (s.cfg.skip = false → ∃ last, s.headers.getLast? = some last ∧ LinkOK env last b.hdr))) := by
+  obtain ⟨h1, h2, _, h4, h5⟩ := reject_changes_nothing_aux env s s' b e hne hix h
+  exact ⟨h1, h2, reject_ledger_same env s s' b e h, h4, h5⟩
 
--- non-vacuity: exNode (sr on, no header ahead) meets the condition for block 1; an emptied block is rejected
-example : (exNode.cfg.sr = false ∨ exNode.headerHeight ≤ b1.hdr.index) ∧
-    (addBlock exEnv exNode { b1 with txs := [] }).2 = some .merkle := by decide
+-- non-vacuity: the case that used to violate it — state roots in headers, header 2 recorded ahead with a
+-- PrevStateRoot block 1 does not produce: block 1 is executed, refused (store) and nothing has changed
+example : (addBlock exEnv exBadNext b1).2 = some .store ∧
+    (addBlock exEnv exBadNext b1).1.ledger = exBadNext.ledger ∧
+    (addBlock exEnv exBadNext b1).1.headers = exBadNext.headers := by decide
 
-/-- C06 (3), FULL statement under the same condition. -/
-theorem correct_still_accepted_full (env : Env L) (s s' t : Node L) (b' b : Block) (e : Err)
+/-- C06 (3), FULL statement: after ANY rejected block `b'` that did not leave the header of a different
+block behind (header chain untouched, or `b'` has `b`'s header hash), a block `b` that the node would
+accept is still accepted and leads to exactly the same node as without `b'`. (In the excluded case the
+validators signed two headers for one height; the recorded one wins.) -/
+theorem correct_still_accepted (env : Env L) (s s' t : Node L) (b' b : Block) (e : Err)
     (hne : s.headers ≠ []) (hix : Indexed s.headers)
-    (hcond : s.cfg.sr = false ∨ s.headerHeight ≤ b'.hdr.index)
     (hrej : addBlock env s b' = (s', some e))
     (hacc : addBlock env s b = (t, none))
     (hsame : s'.headers = s.headers ∨ b'.hdr.hash = b.hdr.hash) :
     addBlock env s' b = (t, none) :=
-  correct_still_accepted_no_header_ahead env s s' t b' b e hne hix hcond hrej hacc hsame
+  correct_still_accepted_aux env s s' t b' b e hne hix hrej hacc hsame (reject_ledger_same env s s' b' e hrej)
+
+-- non-vacuity: SkipBlockVerification, headers 1 and 2 recorded: another body under header 1 is executed and
+-- refused by header 2's PrevStateRoot; the valid block 1 is accepted afterwards, with the same result
+example : (addBlock exEnv exSkip { b1 with txs := [t42, t50] }).2 = some .store ∧
+    (addBlock exEnv (addBlock exEnv exSkip { b1 with txs := [t42, t50] }).1 b1).2 = none ∧
+    (addBlock exEnv (addBlock exEnv exSkip { b1 with txs := [t42, t50] }).1 b1).1.blockHeight =
+      (addBlock exEnv exSkip b1).1.blockHeight := by decide
 
 end NeoModel.AddBlock
